@@ -397,6 +397,8 @@ package flags
 //@   ensures same(s.args, old(s.args)) && s.arg == old(s.arg)
 //@   assigns s.positional, s.retargs, s.err, s.lookup, s.command, Command.Active
 
+//@ assumed func fmt.Fprintf(w io.Writer, format string, a ...interface{}) (n int, err error)
+//@   traced
 //@ assumed func fmt.Fprintln(w io.Writer, a ...interface{}) (n int, err error)
 //@   traced
 
@@ -947,6 +949,7 @@ package flags
 //@   pure
 
 //@ func wrapText(s string, l int, prefix string) (r string)
+//@   traced
 //@   props C17 C04
 //@   requires nwd(prefix) == ""
 //@   loop 1 invariant l >= 10 && unfold(joinN(lines, idx_1)) && unfold(joinN(lines, idx_1 + 1)) && nwd(ret) == joinN(lines, idx_1)
@@ -1160,3 +1163,193 @@ package flags
 //@   ensures[C11] scalar && isFloatKind(k) ==> err == snd(strconv.ParseFloat(val, tp.Bits())) && (err == nil ==> ncalls(reflect.Value.SetFloat) == old(ncalls(reflect.Value.SetFloat)) + 1 && callarg(reflect.Value.SetFloat, old(ncalls(reflect.Value.SetFloat)), 0) == retval && callarg(reflect.Value.SetFloat, old(ncalls(reflect.Value.SetFloat)), 1) == fst(strconv.ParseFloat(val, tp.Bits()))) && (err != nil ==> storesUnchanged())
 //@   ensures is(err, *Error) ==> as(err, *Error) != nil
 //@   ensures !isTyped(err, ErrUnknownFlag)
+
+// ===================================================================
+// C16: help and man page show exactly the visible interface
+// ===================================================================
+
+//@ pure func showable(o *Option) bool = !o.Hidden && (o.ShortName != 0 || len(o.LongName) != 0)
+
+//@ func (option *Option) showInHelp() (r bool)
+//@   props C16 C04
+//@   requires option != nil
+//@   ensures[C16] r ==> !option.Hidden
+//@   ensures[C16] r == showable(option)
+//@   assigns nothing
+
+// Rows a group contributes: one per option that can be shown.
+//@ pure func nShow(opts []*Option, n int) int = ite(n <= 0, 0, nShow(opts, n-1) + ite(showable(opts[n-1]), 1, 0))
+//@ pure func grpRows(g *Group) int = ite(g.Hidden, 0, nShow(g.options, len(g.options)))
+//@ pure func manRows(root *Group, n int) int = ite(n <= 0, 0, manRows(root, n-1) + grpRows(iterelem(Group.eachGroup, root, n-1, 0)))
+//@ lemma[C16] nShow_nonneg: forall opts []*Option, n int :: unfold(nShow(opts, n)) && (n <= 0 || nShow(opts, n-1) >= 0) ==> nShow(opts, n) >= 0
+
+//@ func (g *Group) showInHelp() (r bool)
+//@   props C16 C04
+//@   requires g != nil
+//@   loop 1 invariant unfold(nShow(g.options, idx_1 + 1)) && unfold(nShow(g.options, 0)) && nShow(g.options, idx_1) == 0
+//@   ensures[C16] r ==> !g.Hidden
+//@   ensures[C16] r ==> exists(i, 0, len(g.options), showable(g.options[i]))
+//@   ensures[C16] !r ==> grpRows(g) == 0
+//@   assigns nothing
+
+//@ func quoteV(s []string) (r []string)
+//@   props C16 C12 C04
+//@   traced
+//@   loop 1 invariant len(ret) == len(s) && forall(i, 0, idx_1, ret[i] == strconv.Quote(s[i]))
+//@   ensures len(r) == len(s) && forall(i, 0, len(s), r[i] == strconv.Quote(s[i]))
+//@   assigns nothing
+
+//@ assumed func strconv.Quote(s string) (r string)
+//@   pure
+//@ assumed func strings.Replace(s string, old string, new string, n int) (r string)
+//@   pure
+//@ func manQuote(s string) (r string)
+//@   props C16 C04
+//@   traced
+//@   ensures r == strings.Replace(s, "\\", "\\\\", -1)
+//@   assigns nothing
+//@ assumed func manQuoteLines(s string) (r string)
+//@   pure
+//@ assumed func formatForMan(wr io.Writer, s string, quoter func(s string) string)
+//@   traced
+
+// One row per option that is shown, in a group that is shown; a masked
+// default is printed as its mask or not at all, never as its value.
+//@ func writeManPageOptions(wr io.Writer, grp *Group)
+//@   props C16 C04
+//@   traced
+//@   requires grp != nil
+//@   loop 1 invariant unfold(manRows(grp, idx_1 + 1)) && unfold(manRows(grp, 0)) && ticks(rows) == manRows(grp, idx_1)
+//@   loop 2 invariant unfold(nShow(group.options, idx_2 + 1)) && unfold(nShow(group.options, 0)) && !group.Hidden && ticks(rows) == manRows(grp, idx_1) + nShow(group.options, idx_2)
+//@   at[C16] call fmt.Fprintln #2: !group.Hidden && !opt.Hidden && tick(rows)
+//@   at[C16] call quoteV #2: len(opt.DefaultMask) == 0
+//@   ensures[C16] ticks(rows) == manRows(grp, iterlen(Group.eachGroup, grp))
+
+// Every element of the sorted visible subcommands gets a section, and only
+// non-hidden subcommands do (the whole tree is walked by the recursion).
+//@ func writeManPageSubcommands(wr io.Writer, name string, usagePrefix string, root *Command)
+//@   props C16 C04
+//@   traced
+//@   requires root != nil
+//@   let sv0 := ncalls(Command.sortedVisibleCommands)
+//@   loop 1 invariant ticks(cmds) == idx_1 && ncalls(Command.sortedVisibleCommands) >= sv0 + 1 && same(commands, callres(Command.sortedVisibleCommands, sv0, 0)) && callarg(Command.sortedVisibleCommands, sv0, 0) == root
+//@   at[C16] call writeManPageCommand #1: !c.Hidden && subOf(c, root) && tick(cmds)
+//@   ensures[C16] ticks(cmds) == len(callres(Command.sortedVisibleCommands, sv0, 0)) && callarg(Command.sortedVisibleCommands, sv0, 0) == root
+
+//@ assumed func Usage.Usage(u Usage) (r string)
+//@   traced
+//@ func (c *Command) hasHelpOptions() (r bool)
+//@   props C16 C04
+//@   requires c != nil
+
+//@ func writeManPageCommand(wr io.Writer, name string, usagePrefix string, command *Command)
+//@   props C16 C04
+//@   requires command != nil
+//@   ensures[C16] ncalls(writeManPageOptions) > old(ncalls(writeManPageOptions)) && callarg(writeManPageOptions, old(ncalls(writeManPageOptions)), 1) == command.Group
+//@   ensures[C16] ncalls(writeManPageSubcommands) > old(ncalls(writeManPageSubcommands)) && callarg(writeManPageSubcommands, old(ncalls(writeManPageSubcommands)), 3) == command
+
+//@ func (p *Parser) WriteManPage(wr io.Writer)
+//@   props C16 C04
+//@   requires p != nil && p.Command != nil
+//@   requires os.Getenv("SOURCE_DATE_EPOCH") == "" || snd(strconv.ParseInt(os.Getenv("SOURCE_DATE_EPOCH"), 10, 64)) == nil
+//@   ensures[C16] ncalls(writeManPageOptions) > old(ncalls(writeManPageOptions)) && callarg(writeManPageOptions, old(ncalls(writeManPageOptions)), 1) == p.Command.Group
+
+//@ assumed func time.Now() (t time.Time)
+//@ assumed func time.Unix(sec int64, nsec int64) (t time.Time)
+//@ assumed func time.Time.Format(t time.Time, layout string) (r string)
+
+// help.go: one option row.  Nothing is written for a hidden option; beside a
+// description come the default - the mask when there is one (nothing for the
+// mask "-"), otherwise the literal default, never both - and the environment
+// variable.
+//@ assumed func bytes.Buffer.WriteString(b *bytes.Buffer, s string) (n int, err error)
+//@   traced
+//@ assumed func bytes.Buffer.WriteRune(b *bytes.Buffer, r rune) (n int, err error)
+//@   traced
+//@ assumed func bytes.Buffer.Bytes(b *bytes.Buffer) (r []byte)
+//@ assumed func bytes.Buffer.WriteTo(b *bytes.Buffer, w io.Writer) (n int64, err error)
+//@   traced
+//@ assumed func bufio.Writer.WriteString(b *bufio.Writer, s string) (n int, err error)
+//@   traced
+//@ assumed func utf8.RuneCount(p []byte) (n int)
+//@   pure
+//@   ensures 0 <= n
+//@ assumed func strings.Repeat(s string, count int) (r string)
+//@   pure
+//@   ensures nwd(s) == "" ==> nwd(r) == ""
+
+//@ pure func helpDefault(o *Option) string = ite(len(o.DefaultMask) != 0, ite(o.DefaultMask != "-", o.DefaultMask, ""), o.defaultLiteral)
+//@ pure func helpEnv(o *Option) string = ite(o.EnvKeyWithNamespace() != "", " [$" + o.EnvKeyWithNamespace() + "]", "")
+//@ pure func helpDesc(o *Option) string = ite(helpDefault(o) != "", o.Description + " (default: " + helpDefault(o) + ")" + helpEnv(o), o.Description + helpEnv(o))
+
+//@ func (p *Parser) writeHelpOption(writer *bufio.Writer, option *Option, info alignmentInfo)
+//@   props C16 C04
+//@   traced
+//@   requires option != nil && use(wf_option, option)
+//@   ensures[C16] option.Hidden ==> ncalls(bufio.Writer.WriteString) == old(ncalls(bufio.Writer.WriteString)) && ncalls(bytes.Buffer.WriteTo) == old(ncalls(bytes.Buffer.WriteTo))
+//@   ensures[C16] !option.Hidden ==> ncalls(bytes.Buffer.WriteTo) == old(ncalls(bytes.Buffer.WriteTo)) + 1
+//@   ensures[C16] !option.Hidden && option.Description != "" ==> ncalls(wrapText) == old(ncalls(wrapText)) + 1 && callarg(wrapText, old(ncalls(wrapText)), 0) == helpDesc(option)
+//@   ensures[C16] option.Hidden || option.Description == "" ==> ncalls(wrapText) == old(ncalls(wrapText))
+
+//@ func (a *alignmentInfo) descriptionStart() (r int)
+//@   props C17 C16 C04
+//@   requires a != nil
+//@   ensures[C17] r == a.maxLongLen + distanceBetweenOptionAndDescription + ite(a.hasShort, 2, 0) + ite(a.maxLongLen > 0, 4, 0) + ite(a.hasValueName, 3, 0)
+//@   assigns nothing
+
+//@ assumed func bufio.NewWriter(w io.Writer) (b *bufio.Writer)
+//@   ensures b != nil
+//@ assumed func bufio.Writer.Flush(b *bufio.Writer) (err error)
+//@   traced
+//@ assumed func utf8.RuneCountInString(s string) (n int)
+//@   pure
+//@   ensures 0 <= n
+
+//@ func maxCommandLength(s []*Command) (r int)
+//@   props C16 C17 C04
+//@   loop 1 invariant forall(i, 0, idx_1 + 1, len(s[i].Name) <= ret)
+//@   ensures[C17] forall(i, 0, len(s), len(s[i].Name) <= r)
+//@   assigns nothing
+
+// Rows of the help text: along the active chain, every group that is not
+// hidden (and, below the top level, is not the built-in help group)
+// contributes one row per option that can be shown; nothing else gets a row.
+//@ pure func helpSkip(p *Parser, c *Command, g *Group) bool = g.Hidden || (g.isBuiltinHelp && c != p.Command)
+//@ pure func hRows(p *Parser, c *Command, n int) int = ite(n <= 0, 0, hRows(p, c, n-1) + ite(helpSkip(p, c, groupAt(c, n-1)), 0, nShow(groupAt(c, n-1).options, len(groupAt(c, n-1).options))))
+//@ pure func hChain(p *Parser, n int) int = ite(n <= 0, 0, hChain(p, n-1) + hRows(p, activeAt(p.Command, n-1), iterlen(Group.eachGroup, activeAt(p.Command, n-1).Group)))
+
+//@ func (p *Parser) WriteHelp(writer io.Writer)
+//@   props C16 C04
+//@   requires p != nil && p.Command != nil
+//@   let root := p.Command
+//@   let w0 := ncalls(Parser.writeHelpOption)
+//@   requires use(chain_zero, root)
+//@   loop 1 invariant cmd != nil && cmd == activeAt(root, cnt_1) && use(chain_step, root, cnt_1) && cnt_1 < chainLen(root)
+//@   loop 1 decreases chainLen(root) - cnt_1
+//@   loop 2 invariant allcmd == activeAt(root, cnt_2) && use(chain_step, root, cnt_2) && use(chain_end, root, cnt_2) && cnt_2 <= chainLen(root) && cmd != nil
+//@   loop 2 decreases chainLen(root) - cnt_2
+//@   loop 4 invariant len(names) == len(subcommands) && forall(i, 0, idx_4, names[i] == subcommands[i].Name)
+//@   loop 5 invariant c == activeAt(root, cnt_5) && use(chain_step, root, cnt_5) && use(chain_end, root, cnt_5) && cnt_5 <= chainLen(root) && cmd != nil
+//@   loop 5 invariant unfold(hChain(p, cnt_5 + 1)) && unfold(hChain(p, 0)) && ncalls(Parser.writeHelpOption) == w0 + hChain(p, cnt_5)
+//@   loop 5 invariant forall(k, w0, ncalls(Parser.writeHelpOption), showable(callarg(Parser.writeHelpOption, k, 2)))
+//@   loop 5 decreases chainLen(root) - cnt_5
+//@   loop 6 invariant unfold(hRows(p, c, idx_6 + 1)) && unfold(hRows(p, c, 0)) && ncalls(Parser.writeHelpOption) == w0 + hChain(p, cnt_5) + hRows(p, c, idx_6)
+//@   loop 6 invariant forall(k, w0, ncalls(Parser.writeHelpOption), showable(callarg(Parser.writeHelpOption, k, 2)))
+//@   loop 7 invariant unfold(nShow(grp.options, idx_7 + 1)) && unfold(nShow(grp.options, 0)) && !helpSkip(p, c, grp) && ncalls(Parser.writeHelpOption) == w0 + hChain(p, cnt_5) + hRows(p, c, idx_6) + nShow(grp.options, idx_7)
+//@   loop 7 invariant forall(k, w0, ncalls(Parser.writeHelpOption), showable(callarg(Parser.writeHelpOption, k, 2)))
+//@   at[C16] call strings.Join #1: forall(i, 0, len(subcommands), !subcommands[i].Hidden && names[i] == subcommands[i].Name)
+//@   at[C16] call fmt.Fprintf #14: !c.Hidden && subOf(c, cmd)
+//@   ensures[C16] writer != nil ==> ncalls(Parser.writeHelpOption) == w0 + hChain(p, chainLen(root))
+//@   ensures[C16] forall(k, w0, ncalls(Parser.writeHelpOption), showable(callarg(Parser.writeHelpOption, k, 2)))
+
+//@ func (p *Parser) getAlignmentInfo() (r alignmentInfo)
+//@   props C17 C04
+//@   requires p != nil && p.Command != nil
+//@ assumed func getTerminalColumns() (n int)
+
+//@ func (a *alignmentInfo) updateLen(name string, indent bool)
+//@   props C17 C04
+//@   requires a != nil
+//@   let l := utf8.RuneCountInString(name) + ite(indent, 4, 0)
+//@   ensures[C17] a.maxLongLen == ite(l > old(a.maxLongLen), l, old(a.maxLongLen))
+//@   assigns a.maxLongLen
